@@ -433,16 +433,32 @@ pub fn bind_repeat_stat(
 
     // Bind the condition expression as a condition node
     if let Some(condition_expr) = repeat_stat.get_condition_expr() {
-        bind_condition_expr(
-            binder,
-            condition_expr,
-            block_flow_id,
-            post_repeat_label,
-            pre_repeat_label,
-        );
+        if block_flow_id == binder.unreachable {
+            // The body never reaches `until` (it ends with break/return), so the condition is dead
+            // code: it must not add an exit edge without antecedent to the post-loop label.
+            bind_expr(binder, condition_expr, block_flow_id);
+        } else {
+            bind_condition_expr(
+                binder,
+                condition_expr,
+                block_flow_id,
+                post_repeat_label,
+                pre_repeat_label,
+            );
+        }
     }
 
-    finish_flow_label(binder, post_repeat_label, block_flow_id)
+    let post_flow = finish_flow_label(binder, post_repeat_label, block_flow_id);
+    // When a `break` is the only way out, keep the label in front of it: the enclosing block would
+    // otherwise take the Break node for its own `break` and treat the code after the loop as dead.
+    if binder
+        .get_flow(post_flow)
+        .is_some_and(|flow_node| flow_node.kind.is_change_flow())
+    {
+        return post_repeat_label;
+    }
+
+    post_flow
 }
 
 pub fn bind_if_stat(binder: &mut FlowBinder, if_stat: LuaIfStat, current: FlowId) -> FlowId {
